@@ -218,9 +218,9 @@ func (rp *Republisher) run(ctx context.Context, timeoutShort, timeoutLong time.D
 			}
 			lastPublished = toPublish
 			toPublish = cid.Undef
-			// Resume reading waiters,
-			immediatePublish = rp.immediatePublish
 		}
+		// Nothing (left) to retry: resume reading waiters.
+		immediatePublish = rp.immediatePublish
 
 		// 3. Notify anything waiting in `WaitPub` on successful call to
 		// pubfunc or if nothing to publish.
